@@ -31,6 +31,8 @@ type HMACKey = MerkleHash;
 //@ end
 //@ extract mdb_shard/src/cas_structs.rs struct MDBCASInfoView
 //@ end
+//@ extract mdb_shard/src/streaming_shard.rs struct MDBMinimalShard
+//@ end
 //@ extract mdb_shard/src/shard_format.rs struct MDBShardFileHeader
 //@ end
 //@ extract mdb_shard/src/shard_format.rs struct MDBShardFileFooter
@@ -108,10 +110,10 @@ impl FileDataSequenceHeader {
 // a file record handed to a callback: the header, and a private buffer holding the re-encoded header followed by the record's
 // `following` 48-byte entries exactly as they stand in the stream at p+48
 spec fn file_view_ok(v: MDBFileInfoView, data: Seq<u8>, p: int, h: FileDataSequenceHeader) -> bool {
-    v.header == h && v.offset == 0 && v.data@ == enc_file_hdr(h) + data.subrange(p + 48, p + 48 + 48 * following(h))
+    v.header == h && v.offset == 0 && v.data@ == enc_file_hdr(h) + data.subrange(p + 48, p + 48 + 48 * following(h)) && v.data@.len() == 48 * (1 + following(h))
 }
 spec fn cas_view_ok(v: MDBCASInfoView, data: Seq<u8>, p: int, h: CASChunkSequenceHeader) -> bool {
-    v.header == h && v.offset == 0 && v.data@ == enc_cas_hdr(h) + data.subrange(p + 48, p + 48 + 48 * h.num_entries)
+    v.header == h && v.offset == 0 && v.data@ == enc_cas_hdr(h) + data.subrange(p + 48, p + 48 + 48 * h.num_entries) && v.data@.len() == 48 * (1 + h.num_entries)
 }
 
 impl MDBFileInfoView {
@@ -122,7 +124,8 @@ impl MDBFileInfoView {
 //@ contract
         requires offset + 48 * (1 + following(header)) <= usize::MAX,
         ensures
-            r matches Ok(v) ==> v.header == header && v.data == data && v.offset == offset && data@.len() >= offset + 48 * (1 + following(header)),
+            r is Ok <==> data@.len() >= offset + 48 * (1 + following(header)),
+            r matches Ok(v) ==> v.header == header && v.data == data && v.offset == offset,
 //@ end
 }
 impl MDBCASInfoView {
@@ -133,7 +136,127 @@ impl MDBCASInfoView {
 //@ contract
         requires offset + 48 * (1 + header.num_entries) <= usize::MAX,
         ensures
-            r matches Ok(v) ==> v.header == header && v.data == data && v.offset == offset && data@.len() >= offset + 48 * (1 + header.num_entries),
+            r is Ok <==> data@.len() >= offset + 48 * (1 + header.num_entries),
+            r matches Ok(v) ==> v.header == header && v.data == data && v.offset == offset,
+//@ end
+}
+
+
+// `Write::write_all` on a Vec<u8>: appends the slice
+#[verifier::external_body]
+fn vx_write_all(w: &mut Vec<u8>, b: &[u8]) -> (r: Result<()>) ensures r is Ok ==> final(w)@ == old(w)@ + b@ { unimplemented!() }
+// a view is well-formed when its record lies inside its buffer (what from_data_and_header checks)
+spec fn fview_wf(v: MDBFileInfoView) -> bool { v.offset + 48 * (1 + following(v.header)) <= v.data@.len() <= usize::MAX }
+spec fn cview_wf(v: MDBCASInfoView) -> bool { v.offset + 48 * (1 + v.header.num_entries) <= v.data@.len() <= usize::MAX }
+impl MDBFileInfoView {
+//@ extract mdb_shard/src/file_structs.rs in `impl MDBFileInfoView` fn num_entries
+//@ ret r
+//@ contract
+        ensures r == self.header.num_entries,
+//@ end
+//@ extract mdb_shard/src/file_structs.rs in `impl MDBFileInfoView` fn contains_metadata_ext
+//@ ret r
+//@ contract
+        ensures r == has_ext(self.header),
+//@ end
+//@ extract mdb_shard/src/file_structs.rs in `impl MDBFileInfoView` fn contains_verification
+//@ ret r
+//@ contract
+        ensures r == has_verif(self.header),
+//@ end
+//@ extract mdb_shard/src/file_structs.rs in `impl MDBFileInfoView` fn byte_size
+//@ ret r
+//@ contract
+        ensures r == 48 * (1 + following(self.header)),
+//@ end
+//@ extract mdb_shard/src/file_structs.rs in `impl MDBFileInfoView` fn serialize
+//@ ret r
+//@ subst `<W: Write>` => `` :: R11 the instance W = Vec<u8>
+//@ subst `writer: &mut W` => `writer: &mut Vec<u8>` :: R11 the instance W = Vec<u8>
+//@ subst `io::Result<usize>` => `Result<usize>` :: R11 one error type for all stubs
+//@ subst `writer.write_all(` => `vx_write_all(writer, ` :: R11 Write::write_all on Vec<u8>
+//@ contract
+        requires fview_wf(*self),
+        ensures r matches Ok(n) ==> n == 48 * (1 + following(self.header)) && final(writer)@ == old(writer)@ + self.data@.subrange(self.offset as int, self.offset + n),
+//@ end
+}
+impl MDBCASInfoView {
+//@ extract mdb_shard/src/cas_structs.rs in `impl MDBCASInfoView` fn num_entries
+//@ ret r
+//@ contract
+        ensures r == self.header.num_entries,
+//@ end
+//@ extract mdb_shard/src/cas_structs.rs in `impl MDBCASInfoView` fn byte_size
+//@ ret r
+//@ contract
+        ensures r == 48 * (1 + self.header.num_entries),
+//@ end
+//@ extract mdb_shard/src/cas_structs.rs in `impl MDBCASInfoView` fn serialize
+//@ ret r
+//@ subst `<W: Write>` => `` :: R11 the instance W = Vec<u8>
+//@ subst `writer: &mut W` => `writer: &mut Vec<u8>` :: R11 the instance W = Vec<u8>
+//@ subst `io::Result<usize>` => `Result<usize>` :: R11 one error type for all stubs
+//@ subst `writer.write_all(` => `vx_write_all(writer, ` :: R11 Write::write_all on Vec<u8>
+//@ contract
+        requires cview_wf(*self),
+        ensures r matches Ok(n) ==> n == 48 * (1 + self.header.num_entries) && final(writer)@ == old(writer)@ + self.data@.subrange(self.offset as int, self.offset + n),
+//@ end
+}
+
+// ---- MDBMinimalShard::from_reader: the two callback closures, lifted (R8) with their captured variables as parameters ----
+//@ extract mdb_shard/src/streaming_shard.rs in `impl MDBMinimalShard` region from_reader
+//@ block `|fiv: MDBFileInfoView| {`
+//@ sig `fn from_reader_file_cb(include_files: bool, file_offsets: &mut Vec<u32>, mut data_vec: &mut Vec<u8>, fiv: &MDBFileInfoView) -> (res: Result<()>)`
+//@ contract
+    requires fview_wf(*fiv),
+    ensures
+        res is Ok && include_files ==> final(file_offsets)@ == old(file_offsets)@.push(old(data_vec)@.len() as u32)
+            && final(data_vec)@ == old(data_vec)@ + fiv.data@.subrange(fiv.offset as int, fiv.offset + 48 * (1 + following(fiv.header))),
+        res is Ok && !include_files ==> final(file_offsets)@ == old(file_offsets)@ && final(data_vec)@ == old(data_vec)@,
+//@ end
+//@ extract mdb_shard/src/streaming_shard.rs in `impl MDBMinimalShard` region from_reader
+//@ block `|civ: MDBCASInfoView| {`
+//@ sig `fn from_reader_cas_cb(cas_offsets: &mut Vec<u32>, mut data_vec: &mut Vec<u8>, civ: &MDBCASInfoView) -> (res: Result<()>)`
+//@ contract
+    requires cview_wf(*civ),
+    ensures
+        res is Ok ==> final(cas_offsets)@ == old(cas_offsets)@.push(old(data_vec)@.len() as u32)
+            && final(data_vec)@ == old(data_vec)@ + civ.data@.subrange(civ.offset as int, civ.offset + 48 * (1 + civ.header.num_entries)),
+//@ end
+
+
+// Vec::shrink_to_fit only releases capacity
+pub assume_specification<T, A: std::alloc::Allocator> [Vec::<T, A>::shrink_to_fit] (v: &mut Vec<T, A>)
+    ensures final(v)@ == old(v)@;
+
+//@ extract mdb_shard/src/streaming_shard.rs in `impl MDBMinimalShard` region from_reader
+//@ from `FileDataSequenceHeader::bookend().serialize(&mut data_vec)?;`
+//@ to `let mut cas_offsets = Vec::<u32>::new();`
+//@ sig `fn from_reader_mid(mut data_vec: &mut Vec<u8>) -> (res: Result<(u32, Vec<u32>)>)`
+//@ epilogue `Ok((cas_info_start, cas_offsets))`
+//@ contract
+    ensures
+        // the file bookend always goes in; the CAS part starts right after it
+        res matches Ok((start, offs)) ==> final(data_vec)@ == old(data_vec)@ + enc_file_hdr(file_bookend_hdr()) && start == final(data_vec)@.len() as u32 && offs@.len() == 0,
+//@ end
+impl MDBMinimalShard {
+//@ extract mdb_shard/src/streaming_shard.rs in `impl MDBMinimalShard` region from_reader
+//@ from `CASChunkSequenceHeader::bookend().serialize(&mut data_vec)?;`
+//@ to `cas_info_start, })`
+//@ sig `fn from_reader_tail(mut data_vec: Vec<u8>, mut file_offsets: Vec<u32>, mut cas_offsets: Vec<u32>, cas_info_start: u32) -> (res: Result<Self>)`
+//@ contract
+        ensures
+            res matches Ok(m) ==> m.data@ == data_vec@ + enc_cas_hdr(cas_bookend_hdr()) && m.file_offsets@ == file_offsets@ && m.cas_offsets@ == cas_offsets@ && m.cas_info_start == cas_info_start,
+//@ end
+//@ extract mdb_shard/src/streaming_shard.rs in `impl MDBMinimalShard` fn num_files
+//@ ret r
+//@ contract
+        ensures r == self.file_offsets@.len(),
+//@ end
+//@ extract mdb_shard/src/streaming_shard.rs in `impl MDBMinimalShard` fn num_cas
+//@ ret r
+//@ contract
+        ensures r == self.cas_offsets@.len(),
 //@ end
 }
 
@@ -287,6 +410,396 @@ impl VxFileCb {
         res is Ok ==> /*@C09*/ (file_callback matches Some(fcb) ==> file_cb_got(fcb.log@, final(fcb).log@, old(reader).data@, old(reader).pos@ + 48)),
         res is Ok ==> /*@C09*/ (cas_callback matches Some(ccb) ==> cas_cb_got(ccb.log@, final(ccb).log@, old(reader).data@, cas_start(old(reader).data@, old(reader).pos@ + 48))),
 //@ end
+
+// ================= MDBMinimalShard as a pair of sections (same model) ==================================================
+proof fn lemma_file_pos_mono(off: int, sec: Seq<FileDataSequenceHeader>, i: int, j: int)
+    requires 0 <= i <= j,
+    ensures file_pos(off, sec, i) <= file_pos(off, sec, j)
+    decreases j - i
+{ if i < j { lemma_file_pos_mono(off, sec, i, j - 1); } }
+proof fn lemma_cas_pos_mono(off: int, sec: Seq<CASChunkSequenceHeader>, i: int, j: int)
+    requires 0 <= i <= j,
+    ensures cas_pos(off, sec, i) <= cas_pos(off, sec, j)
+    decreases j - i
+{ if i < j { lemma_cas_pos_mono(off, sec, i, j - 1); } }
+// positions are translation invariant
+proof fn lemma_file_pos_shift(a: int, b: int, sec: Seq<FileDataSequenceHeader>, k: int)
+    ensures file_pos(a, sec, k) - a == file_pos(b, sec, k) - b
+    decreases k
+{ if k > 0 { lemma_file_pos_shift(a, b, sec, k - 1); } }
+proof fn lemma_cas_pos_shift(a: int, b: int, sec: Seq<CASChunkSequenceHeader>, k: int)
+    ensures cas_pos(a, sec, k) - a == cas_pos(b, sec, k) - b
+    decreases k
+{ if k > 0 { lemma_cas_pos_shift(a, b, sec, k - 1); } }
+// a section is determined by the bytes: two header lists that both describe the bytes at `off` are equal
+proof fn lemma_file_prefix_eq(data: Seq<u8>, off: int, a: Seq<FileDataSequenceHeader>, b: Seq<FileDataSequenceHeader>, k: int)
+    requires file_section(data, off, a), file_section(data, off, b), 0 <= k <= a.len(), k <= b.len(),
+    ensures file_pos(off, a, k) == file_pos(off, b, k), forall|i: int| 0 <= i < k ==> a[i] == b[i],
+    decreases k
+{
+    if k > 0 {
+        lemma_file_prefix_eq(data, off, a, b, k - 1);
+        assert(file_hdr_at(data, file_pos(off, a, k - 1)) == a[k - 1]);
+        assert(file_hdr_at(data, file_pos(off, b, k - 1)) == b[k - 1]);
+    }
+}
+proof fn lemma_file_section_unique(data: Seq<u8>, off: int, a: Seq<FileDataSequenceHeader>, b: Seq<FileDataSequenceHeader>)
+    requires file_section(data, off, a), file_section(data, off, b),
+    ensures a == b,
+{
+    let m = if a.len() <= b.len() { a.len() as int } else { b.len() as int };
+    lemma_file_prefix_eq(data, off, a, b, m);
+    if a.len() < b.len() { assert(file_hdr_at(data, file_pos(off, b, m)) == b[m]); assert(false); }
+    if b.len() < a.len() { assert(file_hdr_at(data, file_pos(off, a, m)) == a[m]); assert(false); }
+    assert(a =~= b);
+}
+proof fn lemma_cas_prefix_eq(data: Seq<u8>, off: int, a: Seq<CASChunkSequenceHeader>, b: Seq<CASChunkSequenceHeader>, k: int)
+    requires cas_section(data, off, a), cas_section(data, off, b), 0 <= k <= a.len(), k <= b.len(),
+    ensures cas_pos(off, a, k) == cas_pos(off, b, k), forall|i: int| 0 <= i < k ==> a[i] == b[i],
+    decreases k
+{
+    if k > 0 {
+        lemma_cas_prefix_eq(data, off, a, b, k - 1);
+        assert(cas_hdr_at(data, cas_pos(off, a, k - 1)) == a[k - 1]);
+        assert(cas_hdr_at(data, cas_pos(off, b, k - 1)) == b[k - 1]);
+    }
+}
+proof fn lemma_cas_section_unique(data: Seq<u8>, off: int, a: Seq<CASChunkSequenceHeader>, b: Seq<CASChunkSequenceHeader>)
+    requires cas_section(data, off, a), cas_section(data, off, b),
+    ensures a == b,
+{
+    let m = if a.len() <= b.len() { a.len() as int } else { b.len() as int };
+    lemma_cas_prefix_eq(data, off, a, b, m);
+    if a.len() < b.len() { assert(cas_hdr_at(data, cas_pos(off, b, m)) == b[m]); assert(false); }
+    if b.len() < a.len() { assert(cas_hdr_at(data, cas_pos(off, a, m)) == a[m]); assert(false); }
+    assert(a =~= b);
+}
+proof fn lemma_the_file_section(data: Seq<u8>, off: int, sec: Seq<FileDataSequenceHeader>)
+    requires file_section(data, off, sec),
+    ensures has_file_section(data, off), the_file_section(data, off) == sec,
+{ lemma_file_section_unique(data, off, the_file_section(data, off), sec); }
+proof fn lemma_the_cas_section(data: Seq<u8>, off: int, sec: Seq<CASChunkSequenceHeader>)
+    requires cas_section(data, off, sec),
+    ensures has_cas_section(data, off), the_cas_section(data, off) == sec,
+{ lemma_cas_section_unique(data, off, the_cas_section(data, off), sec); }
+
+// the buffer after the first j file records of `sec` (taken from `input` at `ioff`) were appended to an empty buffer
+spec fn built_files(d: Seq<u8>, input: Seq<u8>, ioff: int, sec: Seq<FileDataSequenceHeader>, j: int) -> bool {
+    &&& d.len() == file_pos(0, sec, j)
+    &&& forall|i: int| 0 <= i < j ==> file_hdr_at(d, #[trigger] file_pos(0, sec, i)) == sec[i]
+    &&& forall|i: int| 0 <= i < j ==> d.subrange(#[trigger] file_pos(0, sec, i) + 48, file_pos(0, sec, i + 1)) == input.subrange(file_pos(ioff, sec, i) + 48, file_pos(ioff, sec, i + 1))
+}
+proof fn lemma_built_files_step(d: Seq<u8>, input: Seq<u8>, ioff: int, sec: Seq<FileDataSequenceHeader>, j: int, rec: Seq<u8>)
+    requires built_files(d, input, ioff, sec, j), 0 <= j < sec.len(),
+        rec == enc_file_hdr(sec[j]) + input.subrange(file_pos(ioff, sec, j) + 48, file_pos(ioff, sec, j) + 48 + 48 * following(sec[j])),
+        rec.len() == 48 * (1 + following(sec[j])),
+    ensures built_files(d + rec, input, ioff, sec, j + 1),
+{
+    let d2 = d + rec;
+    axiom_codec_file_hdr(sec[j]);
+    lemma_file_pos_step(0, sec, j); lemma_file_pos_step(ioff, sec, j); lemma_file_pos_ge(0, sec, j);
+    let ent = input.subrange(file_pos(ioff, sec, j) + 48, file_pos(ioff, sec, j) + 48 + 48 * following(sec[j]));
+    assert(d2.subrange(file_pos(0, sec, j), file_pos(0, sec, j) + 48) =~= enc_file_hdr(sec[j]));
+    assert(d2.subrange(file_pos(0, sec, j) + 48, file_pos(0, sec, j + 1)) =~= ent);
+    assert forall|i: int| 0 <= i < j + 1 implies file_hdr_at(d2, #[trigger] file_pos(0, sec, i)) == sec[i] by {
+        if i < j {
+            lemma_file_pos_mono(0, sec, i + 1, j); lemma_file_pos_step(0, sec, i); lemma_file_pos_ge(0, sec, i);
+            assert(d2.subrange(file_pos(0, sec, i), file_pos(0, sec, i) + 48) =~= d.subrange(file_pos(0, sec, i), file_pos(0, sec, i) + 48));
+        }
+    }
+    assert forall|i: int| 0 <= i < j + 1 implies d2.subrange(#[trigger] file_pos(0, sec, i) + 48, file_pos(0, sec, i + 1)) == input.subrange(file_pos(ioff, sec, i) + 48, file_pos(ioff, sec, i + 1)) by {
+        if i < j {
+            lemma_file_pos_mono(0, sec, i + 1, j); lemma_file_pos_step(0, sec, i); lemma_file_pos_ge(0, sec, i);
+            assert(d2.subrange(file_pos(0, sec, i) + 48, file_pos(0, sec, i + 1)) =~= d.subrange(file_pos(0, sec, i) + 48, file_pos(0, sec, i + 1)));
+        }
+    }
+}
+// closing the file part with the bookend gives a file section of exactly `sec` at offset 0; appending more bytes keeps it
+proof fn lemma_built_files_close(d: Seq<u8>, input: Seq<u8>, ioff: int, sec: Seq<FileDataSequenceHeader>, rest: Seq<u8>)
+    requires built_files(d, input, ioff, sec, sec.len() as int), forall|i: int| 0 <= i < sec.len() ==> (#[trigger] sec[i]).file_hash != bookend_hash(),
+    ensures file_section(d + enc_file_hdr(file_bookend_hdr()) + rest, 0, sec),
+{
+    let n = sec.len() as int; let b = enc_file_hdr(file_bookend_hdr()); let d2 = d + b + rest;
+    axiom_codec_file_hdr(file_bookend_hdr()); axiom_bookends(); lemma_file_pos_ge(0, sec, n);
+    assert(d2.subrange(file_pos(0, sec, n), file_pos(0, sec, n) + 48) =~= b);
+    assert forall|k: int| 0 <= k < n implies file_hdr_at(d2, #[trigger] file_pos(0, sec, k)) == sec[k] && sec[k].file_hash != bookend_hash() by {
+        lemma_file_pos_mono(0, sec, k + 1, n); lemma_file_pos_step(0, sec, k); lemma_file_pos_ge(0, sec, k);
+        assert(d2.subrange(file_pos(0, sec, k), file_pos(0, sec, k) + 48) =~= d.subrange(file_pos(0, sec, k), file_pos(0, sec, k) + 48));
+    }
+}
+spec fn built_cas(d: Seq<u8>, base: int, input: Seq<u8>, ioff: int, sec: Seq<CASChunkSequenceHeader>, j: int) -> bool {
+    &&& d.len() == cas_pos(base, sec, j) && base >= 0
+    &&& forall|i: int| 0 <= i < j ==> cas_hdr_at(d, #[trigger] cas_pos(base, sec, i)) == sec[i]
+    &&& forall|i: int| 0 <= i < j ==> d.subrange(#[trigger] cas_pos(base, sec, i) + 48, cas_pos(base, sec, i + 1)) == input.subrange(cas_pos(ioff, sec, i) + 48, cas_pos(ioff, sec, i + 1))
+}
+proof fn lemma_built_cas_step(d: Seq<u8>, base: int, input: Seq<u8>, ioff: int, sec: Seq<CASChunkSequenceHeader>, j: int, rec: Seq<u8>)
+    requires built_cas(d, base, input, ioff, sec, j), 0 <= j < sec.len(),
+        rec == enc_cas_hdr(sec[j]) + input.subrange(cas_pos(ioff, sec, j) + 48, cas_pos(ioff, sec, j) + 48 + 48 * sec[j].num_entries),
+        rec.len() == 48 * (1 + sec[j].num_entries),
+    ensures built_cas(d + rec, base, input, ioff, sec, j + 1),
+{
+    let d2 = d + rec;
+    axiom_codec_cas_hdr(sec[j]);
+    lemma_cas_pos_step(base, sec, j); lemma_cas_pos_step(ioff, sec, j); lemma_cas_pos_ge(base, sec, j);
+    let ent = input.subrange(cas_pos(ioff, sec, j) + 48, cas_pos(ioff, sec, j) + 48 + 48 * sec[j].num_entries);
+    assert(d2.subrange(cas_pos(base, sec, j), cas_pos(base, sec, j) + 48) =~= enc_cas_hdr(sec[j]));
+    assert(d2.subrange(cas_pos(base, sec, j) + 48, cas_pos(base, sec, j + 1)) =~= ent);
+    assert forall|i: int| 0 <= i < j + 1 implies cas_hdr_at(d2, #[trigger] cas_pos(base, sec, i)) == sec[i] by {
+        if i < j {
+            lemma_cas_pos_mono(base, sec, i + 1, j); lemma_cas_pos_step(base, sec, i); lemma_cas_pos_ge(base, sec, i);
+            assert(d2.subrange(cas_pos(base, sec, i), cas_pos(base, sec, i) + 48) =~= d.subrange(cas_pos(base, sec, i), cas_pos(base, sec, i) + 48));
+        }
+    }
+    assert forall|i: int| 0 <= i < j + 1 implies d2.subrange(#[trigger] cas_pos(base, sec, i) + 48, cas_pos(base, sec, i + 1)) == input.subrange(cas_pos(ioff, sec, i) + 48, cas_pos(ioff, sec, i + 1)) by {
+        if i < j {
+            lemma_cas_pos_mono(base, sec, i + 1, j); lemma_cas_pos_step(base, sec, i); lemma_cas_pos_ge(base, sec, i);
+            assert(d2.subrange(cas_pos(base, sec, i) + 48, cas_pos(base, sec, i + 1)) =~= d.subrange(cas_pos(base, sec, i) + 48, cas_pos(base, sec, i + 1)));
+        }
+    }
+}
+proof fn lemma_built_cas_close(d: Seq<u8>, base: int, input: Seq<u8>, ioff: int, sec: Seq<CASChunkSequenceHeader>)
+    requires built_cas(d, base, input, ioff, sec, sec.len() as int), forall|i: int| 0 <= i < sec.len() ==> (#[trigger] sec[i]).cas_hash != bookend_hash(),
+    ensures cas_section(d + enc_cas_hdr(cas_bookend_hdr()), base, sec),
+{
+    let n = sec.len() as int; let b = enc_cas_hdr(cas_bookend_hdr()); let d2 = d + b;
+    axiom_codec_cas_hdr(cas_bookend_hdr()); axiom_bookends(); lemma_cas_pos_ge(base, sec, n);
+    assert(d2.subrange(cas_pos(base, sec, n), cas_pos(base, sec, n) + 48) =~= b);
+    assert forall|k: int| 0 <= k < n implies cas_hdr_at(d2, #[trigger] cas_pos(base, sec, k)) == sec[k] && sec[k].cas_hash != bookend_hash() by {
+        lemma_cas_pos_mono(base, sec, k + 1, n); lemma_cas_pos_step(base, sec, k); lemma_cas_pos_ge(base, sec, k);
+        assert(d2.subrange(cas_pos(base, sec, k), cas_pos(base, sec, k) + 48) =~= d.subrange(cas_pos(base, sec, k), cas_pos(base, sec, k) + 48));
+    }
+}
+
+// well-formed minimal shard: `data` is a file section at 0 followed by a CAS section at cas_info_start, the offset vectors are
+// the record positions, everything fits the u32 offsets
+spec fn min_wf(m: MDBMinimalShard) -> bool {
+    let d = m.data@; let fs = the_file_section(d, 0); let cis = m.cas_info_start as int; let cs = the_cas_section(d, cis);
+    &&& file_section(d, 0, fs) && cis == file_pos(0, fs, fs.len() as int) + 48
+    &&& cas_section(d, cis, cs) && d.len() == cas_pos(cis, cs, cs.len() as int) + 48 && d.len() <= u32::MAX
+    &&& m.file_offsets@.len() == fs.len() && forall|k: int| 0 <= k < fs.len() ==> #[trigger] m.file_offsets@[k] == file_pos(0, fs, k)
+    &&& m.cas_offsets@.len() == cs.len() && forall|k: int| 0 <= k < cs.len() ==> #[trigger] m.cas_offsets@[k] == cas_pos(cis, cs, k)
+}
+// what `m` holds: the two header lists (C09's "file and xorb records" of the minimal reader)
+spec fn min_files(m: MDBMinimalShard) -> Seq<FileDataSequenceHeader> { the_file_section(m.data@, 0) }
+spec fn min_cas(m: MDBMinimalShard) -> Seq<CASChunkSequenceHeader> { the_cas_section(m.data@, m.cas_info_start as int) }
+
+// ---- composition check for `MDBMinimalShard::from_reader` (HAND-WRITTEN skeleton, not extracted) --------------------------
+// The real function passes two closures that capture `file_offsets` / `data_vec` mutably to the streaming functions; Verus does
+// not accept closures capturing `&mut`.  The skeleton runs the verified streaming function with a recording callback and then
+// applies the LIFTED closure body (from_reader_file_cb / from_reader_cas_cb, extracted text) to each recorded view in order —
+// the same calls in the same order, since the closures do not touch the reader.  Everything between the calls is extracted
+// (from_reader_mid, from_reader_tail).  It shows that the region contracts chain to the statement below.
+spec fn sections_fit(data: Seq<u8>, foff: int, include_files: bool, include_cas: bool) -> bool {
+    let fs = the_file_section(data, foff); let coff = cas_start(data, foff); let cs = the_cas_section(data, coff);
+    (if include_files { file_pos(foff, fs, fs.len() as int) - foff } else { 0 }) + 48 + (if include_cas { cas_pos(coff, cs, cs.len() as int) - coff } else { 0 }) + 48 <= u32::MAX
+}
+fn vx_glue_from_reader(reader: &mut VxSR, include_files: bool, include_cas: bool) -> (res: Result<MDBMinimalShard>)
+    requires
+        old(reader).pos@ >= 0, has_file_section(old(reader).data@, old(reader).pos@ + 48),
+        include_cas ==> has_cas_section(old(reader).data@, cas_start(old(reader).data@, old(reader).pos@ + 48)),
+        // the selected info sections fit the u32 offsets a minimal shard stores (< 4 GiB)
+        sections_fit(old(reader).data@, old(reader).pos@ + 48, include_files, include_cas),
+    ensures
+        res matches Ok(m) ==> ({
+            let data = old(reader).data@; let foff = old(reader).pos@ + 48; let coff = cas_start(data, foff);
+            // the minimal shard lists exactly the file records / xorb records of the stream's sections (all of them, up to the
+            // bookends, whatever the footer says — the footer is never read), or none of a section that was not asked for
+            &&& /*@C09*/ min_wf(m)
+            &&& /*@C09*/ min_files(m) == (if include_files { the_file_section(data, foff) } else { Seq::empty() })
+            &&& /*@C09*/ min_cas(m) == (if include_cas { the_cas_section(data, coff) } else { Seq::empty() })
+            // and every record's entries are the stream's bytes
+            &&& /*@C09*/ include_files ==> forall|i: int| 0 <= i < min_files(m).len() ==>
+                    m.data@.subrange(#[trigger] file_pos(0, min_files(m), i) + 48, file_pos(0, min_files(m), i + 1)) == data.subrange(file_pos(foff, min_files(m), i) + 48, file_pos(foff, min_files(m), i + 1))
+            &&& /*@C09*/ include_cas ==> forall|i: int| 0 <= i < min_cas(m).len() ==>
+                    m.data@.subrange(#[trigger] cas_pos(m.cas_info_start as int, min_cas(m), i) + 48, cas_pos(m.cas_info_start as int, min_cas(m), i + 1)) == data.subrange(cas_pos(coff, min_cas(m), i) + 48, cas_pos(coff, min_cas(m), i + 1))
+        }),
+{
+    let ghost data = reader.data@; let ghost foff = reader.pos@ + 48; let ghost fsec = the_file_section(data, foff);
+    let ghost coff = cas_start(data, foff); let ghost csec = the_cas_section(data, coff);
+    let ghost fe: Seq<FileDataSequenceHeader> = if include_files { fsec } else { Seq::empty() };
+    let ghost ce: Seq<CASChunkSequenceHeader> = if include_cas { csec } else { Seq::empty() };
+    proof { assert(file_section(data, foff, fsec)); lemma_file_pos_ge(foff, fsec, fsec.len() as int); lemma_file_pos_shift(0, foff, fsec, fsec.len() as int); }
+    let mut data_vec = Vec::<u8>::new();
+    let _ = MDBShardFileHeader::deserialize(reader)?;
+    let mut file_offsets = Vec::<u32>::new();
+    let mut fcb = VxFileCb { log: Vec::new() };
+    process_shard_file_info_section(reader, &mut fcb)?;
+    proof {
+        assert forall|i: int| 0 <= i < fsec.len() implies file_view_ok(#[trigger] fcb.log@[i], data, file_pos(foff, fsec, i), fsec[i]) by { assert(fcb.log@[0 + i] == fcb.log@[i]); }
+        if include_cas { lemma_cas_pos_ge(coff, csec, csec.len() as int); }
+    }
+    let mut k: usize = 0;
+    while k < fcb.log.len()
+        invariant
+            k <= fcb.log@.len(), fcb.log@.len() == fsec.len(), file_section(data, foff, fsec), foff >= 48,
+            forall|i: int| 0 <= i < fsec.len() ==> file_view_ok(#[trigger] fcb.log@[i], data, file_pos(foff, fsec, i), fsec[i]),
+            include_files ==> built_files(data_vec@, data, foff, fsec, k as int) && file_offsets@.len() == k
+                && forall|i: int| 0 <= i < k ==> #[trigger] file_offsets@[i] == file_pos(0, fsec, i),
+            !include_files ==> data_vec@.len() == 0 && file_offsets@.len() == 0,
+            include_files ==> file_pos(0, fsec, fsec.len() as int) <= u32::MAX,
+        decreases fcb.log@.len() - k,
+    {
+        let ghost d0 = data_vec@;
+        let v = &fcb.log[k];
+        proof {
+            assert(file_view_ok(fcb.log@[k as int], data, file_pos(foff, fsec, k as int), fsec[k as int]));
+            lemma_file_pos_mono(0, fsec, k as int, fsec.len() as int);
+        }
+        from_reader_file_cb(include_files, &mut file_offsets, &mut data_vec, v)?;
+        proof {
+            if include_files {
+                let rec = v.data@.subrange(0, 48 * (1 + following(v.header)));
+                assert(rec =~= v.data@);
+                lemma_built_files_step(d0, data, foff, fsec, k as int, rec);
+            }
+        }
+        k += 1;
+    }
+    proof {
+        if !include_files { assert(built_files(data_vec@, data, foff, fe, 0)); }
+        assert(built_files(data_vec@, data, foff, fe, fe.len() as int));
+    }
+    let ghost dv_files = data_vec@;
+    let (cas_info_start, mut cas_offsets) = from_reader_mid(&mut data_vec)?;
+    let ghost dv_mid = data_vec@; let ghost cis = dv_mid.len() as int;
+    let ghost mut rest: Seq<u8> = Seq::empty();
+    proof { assert(dv_mid + rest =~= dv_mid); axiom_codec_file_hdr(file_bookend_hdr()); lemma_file_pos_ge(0, fe, fe.len() as int); }
+    if include_cas {
+        proof { assert(cas_section(data, coff, csec)); lemma_cas_pos_ge(coff, csec, csec.len() as int); lemma_cas_pos_shift(cis, coff, csec, csec.len() as int); }
+        let mut ccb = VxCasCb { log: Vec::new() };
+        process_shard_cas_info_section(reader, &mut ccb)?;
+        proof { assert forall|i: int| 0 <= i < csec.len() implies cas_view_ok(#[trigger] ccb.log@[i], data, cas_pos(coff, csec, i), csec[i]) by { assert(ccb.log@[0 + i] == ccb.log@[i]); } }
+        let mut j: usize = 0;
+        while j < ccb.log.len()
+            invariant
+                j <= ccb.log@.len(), ccb.log@.len() == csec.len(), cas_section(data, coff, csec), coff >= 0, cis == dv_mid.len(), cis >= 0,
+                forall|i: int| 0 <= i < csec.len() ==> cas_view_ok(#[trigger] ccb.log@[i], data, cas_pos(coff, csec, i), csec[i]),
+                built_cas(data_vec@, cis, data, coff, csec, j as int), cas_offsets@.len() == j, data_vec@ == dv_mid + rest,
+                forall|i: int| 0 <= i < j ==> #[trigger] cas_offsets@[i] == cas_pos(cis, csec, i),
+                cas_pos(cis, csec, csec.len() as int) + 48 <= u32::MAX,
+            decreases ccb.log@.len() - j,
+        {
+            let ghost d0 = data_vec@;
+            let v = &ccb.log[j];
+            proof {
+                assert(cas_view_ok(ccb.log@[j as int], data, cas_pos(coff, csec, j as int), csec[j as int]));
+                lemma_cas_pos_mono(cis, csec, j as int, csec.len() as int);
+            }
+            from_reader_cas_cb(&mut cas_offsets, &mut data_vec, v)?;
+            proof {
+                let rec = v.data@.subrange(0, 48 * (1 + v.header.num_entries));
+                assert(rec =~= v.data@);
+                lemma_built_cas_step(d0, cis, data, coff, csec, j as int, rec);
+                assert(dv_mid + (rest + rec) =~= (dv_mid + rest) + rec);
+                rest = rest + rec;
+            }
+            j += 1;
+        }
+    }
+    proof { if !include_cas { assert(built_cas(data_vec@, cis, data, coff, ce, 0)); } }
+    let ghost dv_cas = data_vec@;
+    let res = MDBMinimalShard::from_reader_tail(data_vec, file_offsets, cas_offsets, cas_info_start)?;
+    proof {
+        let cb = enc_cas_hdr(cas_bookend_hdr());
+        assert(forall|i: int| 0 <= i < ce.len() ==> (#[trigger] ce[i]).cas_hash != bookend_hash()) by {
+            if include_cas { assert forall|i: int| 0 <= i < csec.len() implies (#[trigger] csec[i]).cas_hash != bookend_hash() by { assert(cas_hdr_at(data, cas_pos(coff, csec, i)) == csec[i]); } }
+        }
+        assert(forall|i: int| 0 <= i < fe.len() ==> (#[trigger] fe[i]).file_hash != bookend_hash()) by {
+            if include_files { assert forall|i: int| 0 <= i < fsec.len() implies (#[trigger] fsec[i]).file_hash != bookend_hash() by { assert(file_hdr_at(data, file_pos(foff, fsec, i)) == fsec[i]); } }
+        }
+        lemma_built_cas_close(dv_cas, cis, data, coff, ce);
+        lemma_built_files_close(dv_files, data, foff, fe, rest + cb);
+        assert(res.data@ =~= dv_files + enc_file_hdr(file_bookend_hdr()) + (rest + cb));
+        lemma_the_file_section(res.data@, 0, fe);
+        lemma_the_cas_section(res.data@, cis, ce);
+        axiom_codec_cas_hdr(cas_bookend_hdr());
+        // entries: the file part of the buffer is a prefix of the final buffer
+        assert forall|i: int| 0 <= i < fe.len() implies res.data@.subrange(#[trigger] file_pos(0, fe, i) + 48, file_pos(0, fe, i + 1)) == data.subrange(file_pos(foff, fe, i) + 48, file_pos(foff, fe, i + 1)) by {
+            lemma_file_pos_mono(0, fe, i + 1, fe.len() as int); lemma_file_pos_step(0, fe, i); lemma_file_pos_ge(0, fe, i);
+            assert(res.data@.subrange(file_pos(0, fe, i) + 48, file_pos(0, fe, i + 1)) =~= dv_files.subrange(file_pos(0, fe, i) + 48, file_pos(0, fe, i + 1)));
+        }
+        assert forall|i: int| 0 <= i < ce.len() implies res.data@.subrange(#[trigger] cas_pos(cis, ce, i) + 48, cas_pos(cis, ce, i + 1)) == data.subrange(cas_pos(coff, ce, i) + 48, cas_pos(coff, ce, i + 1)) by {
+            lemma_cas_pos_mono(cis, ce, i + 1, ce.len() as int); lemma_cas_pos_step(cis, ce, i); lemma_cas_pos_ge(cis, ce, i);
+            assert(res.data@.subrange(cas_pos(cis, ce, i) + 48, cas_pos(cis, ce, i + 1)) =~= dv_cas.subrange(cas_pos(cis, ce, i) + 48, cas_pos(cis, ce, i + 1)));
+        }
+    }
+    Ok(res)
+}
+
+impl MDBFileInfoView {
+//@ extract mdb_shard/src/file_structs.rs in `impl MDBFileInfoView` fn new
+//@ ret r
+//@ subst `std::io::Result<Self>` => `Result<Self>` :: R11 one error type for all stubs
+//@ subst `FileDataSequenceHeader::deserialize(&mut Cursor::new(&data[offset..]))` => `vx_file_hdr_from_slice(&data[offset..])` :: R11 decode from an in-memory slice (Cursor)
+//@ contract
+        requires offset + 48 <= data@.len() <= isize::MAX,  // (a Rust allocation never exceeds isize::MAX bytes)
+        ensures
+            r is Ok <==> data@.len() >= offset + 48 * (1 + following(file_hdr_at(data@, offset as int))),
+            r matches Ok(v) ==> v.header == file_hdr_at(data@, offset as int) && v.data == data && v.offset == offset,
+//@ body-start
+        proof { assert(data@.subrange(offset as int, data@.len() as int).subrange(0, 48) =~= data@.subrange(offset as int, offset + 48)); }
+//@ end
+//@ extract mdb_shard/src/file_structs.rs in `impl MDBFileInfoView` fn entry
+//@ ret r
+//@ subst `assert(idx < self.num_entries());` => `assert(idx < self.header.num_entries);` :: the debug assertion calls the exec accessor num_entries(); restated on the field it returns (obligation kept)
+//@ subst `FileDataSequenceEntry::deserialize(&mut Cursor::new( &self.data[(self.offset + (1 + idx) * MDB_FILE_INFO_ENTRY_SIZE)..], ))` => `vx_file_entry_from_slice(&self.data[(self.offset + (1 + idx) * MDB_FILE_INFO_ENTRY_SIZE)..])` :: R11 decode from an in-memory slice (Cursor)
+//@ contract
+        requires fview_wf(*self), idx < self.header.num_entries,
+        ensures r == file_entry_at(self.data@, self.offset + 48 * (1 + idx)),
+//@ body-start
+        proof { let o = self.offset + 48 * (1 + idx); assert(self.data@.subrange(o, self.data@.len() as int).subrange(0, 48) =~= self.data@.subrange(o, o + 48)); }
+//@ end
+}
+impl MDBCASInfoView {
+//@ extract mdb_shard/src/cas_structs.rs in `impl MDBCASInfoView` fn new
+//@ ret r
+//@ subst `io::Result<Self>` => `Result<Self>` :: R11 one error type for all stubs
+//@ subst `let mut reader = std::io::Cursor::new(&data[offset..]); let header = CASChunkSequenceHeader::deserialize(&mut reader)?;` => `let header = vx_cas_hdr_from_slice(&data[offset..])?;` :: R11 decode from an in-memory slice (Cursor)
+//@ contract
+        requires offset + 48 <= data@.len() <= isize::MAX,  // (a Rust allocation never exceeds isize::MAX bytes)
+        ensures
+            r is Ok <==> data@.len() >= offset + 48 * (1 + cas_hdr_at(data@, offset as int).num_entries),
+            r matches Ok(v) ==> v.header == cas_hdr_at(data@, offset as int) && v.data == data && v.offset == offset,
+//@ body-start
+        proof { assert(data@.subrange(offset as int, data@.len() as int).subrange(0, 48) =~= data@.subrange(offset as int, offset + 48)); }
+//@ end
+//@ extract mdb_shard/src/cas_structs.rs in `impl MDBCASInfoView` fn header
+//@ ret r
+//@ contract
+        ensures *r == self.header,
+//@ end
+}
+impl MDBMinimalShard {
+//@ extract mdb_shard/src/streaming_shard.rs in `impl MDBMinimalShard` fn file
+//@ ret r
+//@ contract
+        requires min_wf(*self), index < self.file_offsets@.len(),
+        ensures
+            // the index-th file record of the shard, viewed in place
+            /*@C09*/ r.header == min_files(*self)[index as int] && r.data == self.data && r.offset == file_pos(0, min_files(*self), index as int) && fview_wf(r),
+//@ body-start
+        proof {
+            let fs = min_files(*self); let k = index as int;
+            lemma_file_pos_ge(0, fs, k); lemma_file_pos_step(0, fs, k); lemma_file_pos_mono(0, fs, k + 1, fs.len() as int);
+            lemma_cas_pos_ge(self.cas_info_start as int, min_cas(*self), min_cas(*self).len() as int);
+            assert(file_hdr_at(self.data@, file_pos(0, fs, k)) == fs[k]);
+        }
+//@ end
+//@ extract mdb_shard/src/streaming_shard.rs in `impl MDBMinimalShard` fn cas
+//@ ret r
+//@ contract
+        requires min_wf(*self), index < self.cas_offsets@.len(),
+        ensures
+            /*@C09*/ r.header == min_cas(*self)[index as int] && r.data == self.data && r.offset == cas_pos(self.cas_info_start as int, min_cas(*self), index as int) && cview_wf(r),
+//@ body-start
+        proof {
+            let cs = min_cas(*self); let k = index as int; let cis = self.cas_info_start as int;
+            lemma_cas_pos_ge(cis, cs, k); lemma_cas_pos_step(cis, cs, k); lemma_cas_pos_mono(cis, cs, k + 1, cs.len() as int);
+            lemma_file_pos_ge(0, min_files(*self), min_files(*self).len() as int);
+            assert(cas_hdr_at(self.data@, cas_pos(cis, cs, k)) == cs[k]);
+        }
+//@ end
+}
 
 } // verus!
 fn main() {}
